@@ -204,6 +204,32 @@ def run(ctx):
                            what="after an event-tracking history and reset(): events %s, a fresh system finds %s" % (eo[:5], ef[:5]))
                 ctx.count("reset-after-event-history:%s:%d-events" % ("dense" if dense else "plain", min(len(ef), 5)))
                 ctx.nontrivial(("reset-after-event-history", name, dense, first_dir, t0, dt))
+    # reset() after a run that blew up (non-finite increments are raised by nobody): nothing of it may reach the re-run
+    def blow_rhs(t, y, **kw):
+        return np.array([y[1], y[0] ** 3])            # q' = p, p' = q^3: finite-time singularity
+    for name in ["ABAs5o6HSolver", "SymplecticEulerSolver", "RK4Solver", "BABs9o7HSolver"] + ([] if ctx.quick() else ["MidpointSolver", "EulerSolver"]):
+        for sgn in (1, -1):
+            inp = dict(kind="reset-after-blow-up", method=name, direction=sgn)
+            try:
+                def mk():
+                    o = de.OdeSystem(blow_rhs, y0=np.array([1.0, 1.0 * sgn]), t=(0.0, 0.5 * sgn), dt=0.01)
+                    o.set_method(getattr(I, name))
+                    return o
+                o = mk()
+                with np.errstate(all="ignore"):
+                    o.integrate(4.0 * sgn)               # far beyond the singularity at |t| ~ 1.3
+                blew = not bool(np.all(np.isfinite(o.y[-1])))
+                o.reset()
+                o.integrate()
+                f = mk()
+                f.integrate()
+            except Exception as e:
+                ctx.oracle("reset-then-rerun-equals-fresh", False, inp, what="raised %r" % (e,))
+                continue
+            same = np.array_equal(o.t, f.t) and np.array_equal(o.y, f.y, equal_nan=False)
+            ctx.oracle("reset-then-rerun-equals-fresh", bool(same), dict(inp, earlier_run_blew_up=blew, end_after_reset=[float(v) for v in o.y[-1]], end_fresh=[float(v) for v in f.y[-1]]),
+                       key="reset-after-blow-up", what="after a blown-up run and reset() the re-run ends at %s, a fresh system at %s" % (o.y[-1], f.y[-1]))
+            ctx.count("reset-after-blow-up:%s" % ("blew-up" if blew else "finite"))
     # determinism and split runs
     for i in range(20 if ctx.quick() else 200):
         name = rng.choice(["RK4Solver", "RK45CKSolver", "DOPRI45", "ABAs5o6HSolver", "BackwardEuler"])
